@@ -533,6 +533,8 @@ func exec(line string) (res string) {
 		return execPow(line, w)
 	case "plug":
 		return execPlug(line, w)
+	case "tdel":
+		return execTdel(line, w)
 	}
 	return "bad-op"
 }
@@ -723,7 +725,7 @@ func main() {
 		out.Case(line, nontrivial)
 		kind := strings.Fields(line)[0]
 		switch kind {
-		case "tdacc", "xpacc", "single", "pow", "powf", "plug":
+		case "tdacc", "xpacc", "single", "pow", "powf", "plug", "tdel":
 			out.Count(kind + ":" + r)
 		default:
 			out.Count(kind)
@@ -1103,6 +1105,15 @@ func main() {
 			}
 		}
 	}
+	// 9. tdpos vote-based election: random ledgers / election records / storage faults around term boundaries
+	elScenarios := 1500
+	if thorough {
+		elScenarios = 30000
+	}
+	for i := 0; i < elScenarios; i++ {
+		genTdel(rng, func(line string) { run(line, true) })
+	}
+	out.Sample(map[string]string{"op": "tdel 2 2 1 0,1 0,1,1,1,1 1@2=5;3=4;0=1 v2 5 2 0 0 3", "impl": exec("tdel 2 2 1 0,1 0,1,1,1,1 1@2=5;3=4;0=1 v2 5 2 0 0 3")})
 	out.Sample(map[string]string{"op": "plug s0 p UR sp0", "impl": exec("plug s0 p UR sp0")})
 	out.Sample(map[string]string{"op": "tdr 3 2 0 3 2 3 0 40", "impl": exec("tdr 3 2 0 3 2 3 0 40")})
 	out.Sample(map[string]string{"op": "sc 486604799", "impl": exec("sc 486604799")})
